@@ -62,6 +62,7 @@ class Aggregate(object):
         self.all_digests = set()
         self.samples = {}
         self.violations = []
+        self.extension = []
         self.known = []
         self.harness_errors = []
         self.timeouts = 0
@@ -92,6 +93,8 @@ class Aggregate(object):
             self.samples[i] = res['sample']
         for v in res.get('violations', []):
             self.violations.append([i, v])
+        for v in res.get('extension', []):
+            self.extension.append([i, v])
         for k in res.get('known', []):
             self.known.append([i, k])
         for k, v in (res.get('notes') or {}).items():
@@ -126,6 +129,12 @@ def drive(prop, tier, verif_seed, n_runs, workers, job, rule, level_text,
         print('  run={} class={} {}'.format(i, v.get('class'),
                                             v.get('detail', '')[:400]))
         exit_code = 1
+    for i, v in sorted(agg.extension, key=lambda x: x[0])[:10]:
+        print('EXTENSION-FINDING property={} (outside the statement\'s '
+              'quantifier, exit code unaffected) replay={}'.format(
+                  prop, v['replay']))
+        print('  run={} class={} {}'.format(i, v.get('class'),
+                                            v.get('detail', '')[:300]))
     for i, k in sorted(agg.known, key=lambda x: x[0]):
         if k['id'] not in seen:
             seen.add(k['id'])
@@ -174,6 +183,7 @@ def drive(prop, tier, verif_seed, n_runs, workers, job, rule, level_text,
         'harness_errors': len(agg.harness_errors),
         'known_findings_hit': sorted(set(k['id'] for _, k in agg.known)),
         'known_findings_hits': len(agg.known),
+        'extension_findings': len(agg.extension),
         'workers': workers,
     }
     cov.update(agg.extra and {'counters': agg.extra} or {})
